@@ -18,8 +18,8 @@ plan("C15", [("valset", 8, 60), ("slash", 2, 20)],
           "updates vs recorded set, exact-diff check of updates, staking views vs recorded set; distinct = (M vs #bonded, tie at boundary) "
           "and (kind of update, M vs #bonded)")
 
-plan("C10", [("lifecycle", 8, 60), ("valset", 2, 10)],
-     minobs={"launch-ok": 5, "launch-failed": 5, "transition:CONSUMER_PHASE_STOPPED->CONSUMER_PHASE_DELETED": 1},
+plan("C10", [("lifecycle", 8, 60), ("valset", 2, 10)], tests=["TestBulk200"],
+     minobs={"launch-ok": 5, "launch-failed": 5, "transition:CONSUMER_PHASE_STOPPED->CONSUMER_PHASE_DELETED": 1, "blocks-with-more-than-200-due": 1},
      rule="every provider block, after BeginBlock and after EndBlock: phase-graph reachability per consumer id, initialized<=>spawn time, "
           "spawn-queue content vs phases, launch rule against the queue of the previous block, launch artefacts; "
           "distinct = (segment, transition) and due-bucket sizes")
@@ -83,8 +83,8 @@ plan("C06", [("keys", 10, 70), ("slash", 4, 30), ("valset", 2, 12)],
           "time steps aim at deadlines (exactly, 1ns before, 1ns after); punishments through replaced keys are judged by the C08 monitor in the slash worlds; "
           "distinct = offset class to the deadline (retained / pruned)")
 
-plan("C20", [("lifecycle", 8, 60), ("slash", 6, 40)],
-     minobs={"changes-applied": 20, "requests:queued": 20, "requests:replaces-pending": 5, "requests:prelaunch-immediate": 10, "downtime-punishments-compared": 5},
+plan("C20", [("lifecycle", 8, 60), ("slash", 6, 40)], tests=["TestBulk200"],
+     minobs={"blocks-with-more-than-200-due": 1, "changes-applied": 200, "requests:queued": 20, "requests:replaces-pending": 5, "requests:prelaunch-immediate": 10, "downtime-punishments-compared": 5},
      rule="shadow (current, pending, due) per consumer stepped by accepted requests (partial requests merged, equal-to-current cancels, later replaces) and by "
           "block time (<=200 per block, schedule order); compared with parameters in force, queued record and raw schedule after every block; punishments "
           "(jail duration, slash fraction at the staking boundary) compared with the parameters in force; distinct = request kind x partial, apply offset class")
@@ -105,8 +105,8 @@ plan("C19", [("lifecycle", 4, 30), ("valset", 3, 20), ("slash", 3, 20), ("keys",
           "for that block); oracle: block does not fail, at most one consumer's result differs from the fault-free run, that consumer's keys equal its pre-block keys up to "
           "the documented fallback, every other consumer equals the fault-free result; distinct = (scenario, call, position of the affected consumer)")
 
-plan("C11", [("lifecycle", 10, 70), ("slash", 6, 40)],
-     minobs={"stops": 20, "removals": 15, "stopped-consumer-blocks": 300},
+plan("C11", [("lifecycle", 10, 70), ("slash", 6, 40)], tests=["TestBulk200"],
+     minobs={"stops": 20, "removals": 200, "stopped-consumer-blocks": 300},
      rule="for every consumer observed in phase stopped: removal time = stop time + unbonding in force; in every block while stopped no validator set or queued "
           "packet of it changes in EndBlock and nothing is sent on its channel; the retained protocol state (client/channel binding, genesis, validator set, opt-ins, "
           "lists, commission rates, queued packets, ...) is compared key by key with its value at the stop until the removal time; removal not before the deadline and "
